@@ -22,7 +22,7 @@ def build_penne(ck):
 
 def make_stub(d, name, code):
     path = os.path.join(d, name)
-    body = '#!/bin/sh\necho "%s $*" >> "%s/invoked.log"\nwhile read -r line; do :; done\n' % (name, d)
+    body = '#!/bin/sh\necho "%s $*" >> "%s/invoked.log"\nwhile IFS= read -r line; do printf "%%s\\n" "$line" >> "%s/stdin.%s"; done\n' % (name, d, d, name)
     if code == "signal": body += "kill -s SEGV $$\n"
     else: body += "exit %s\n" % code
     open(path, "w").write(body)
@@ -103,6 +103,15 @@ def run(tier):
                 bad += 1; ck.violation("wrong-backend", "invoked %s, expected %s (%s)" % (invoked, m["backend"], desc), replay); continue
         elif invoked:
             bad += 1; ck.violation("backend-invoked-unexpectedly", "invoked %s (%s)" % (invoked, desc), replay); continue
+        if m["invoked"] == "true" and o["bres"] == "0" and sub == "run" and ok:
+            sp = os.path.join(d, "stdin." + m["backend"].split("/")[-1])
+            ir = open(sp, errors="replace").read() if os.path.exists(sp) else ""
+            want = ["main"] + (["twice"] if inp == "multi" else [])
+            missing = [f for f in want if not __import__("re").search(r"^define [^\n]*@%s\(" % f, ir, __import__("re").M)]
+            q = C.sh(["llvm-as", "-o", "/dev/null", sp]) if ir else None
+            if missing or q is None or q.returncode != 0:
+                bad += 1; ck.violation("run-ir", "the IR handed to the interpreter %s (%s)" % ("does not define " + ", ".join(missing) if missing else "is rejected by llvm-as", desc),
+                                       replay + "\nIR on the backend's stdin:\n" + ir[:3000]); continue
         out = p.stdout + p.stderr
         if o["silent"] and p.returncode == 0 and out.strip():
             # not part of the property's statement; kept as a statistic (it exposed D23)
@@ -134,6 +143,13 @@ def run(tier):
     p = subprocess.run([PENNE, "run", "--color=never", "a.pn"], cwd=d, capture_output=True, timeout=120)
     if p.returncode != 0 or b"out-a" not in p.stdout or b"Output: 7" not in p.stdout:
         bad += 1; ck.violation("run-output", "penne run does not pass the program's output through / show its exit status", "exit %d\nstdout: %s\nstderr: %s" % (p.returncode, p.stdout[-500:], p.stderr[-500:]))
+    # the same for a program of two modules, in both file orders: the linked program is what runs
+    open(os.path.join(d, "main.pn"), "w").write(VALID_MULTI[0]); open(os.path.join(d, "lib.pn"), "w").write(VALID_MULTI[1])
+    for order in (["main.pn", "lib.pn"], ["lib.pn", "main.pn"]):
+        p = subprocess.run([PENNE, "run", "--color=never"] + order, cwd=d, capture_output=True, timeout=120)
+        if p.returncode != 0 or b"out-m" not in p.stdout or b"Output: 8" not in p.stdout:
+            bad += 1; ck.violation("run-output:multi", "penne run %s does not run the linked program (expected its output and exit status 8)" % " ".join(order),
+                                   "exit %d\nstdout: %s\nstderr: %s" % (p.returncode, p.stdout[-500:], p.stderr[-800:]))
     # absolute input path with --out-dir (D17)
     ab = os.path.join(d, "a.pn")
     p = subprocess.run([PENNE, "emit", "--out-dir", "outabs", ab], cwd=d, capture_output=True, timeout=120)
@@ -145,7 +161,7 @@ def run(tier):
         ck.violation("tie-broken:proof", "Props/C18.v no longer checks", getattr(ck, "proof_output", "")[-2000:])
     ck.coverage.update(
         evaluations=len(runs) + 2, distinct_nontrivial=len(distinct),
-        rule="the real penne binary (built from /repo with alpha,llvm-sys) on {valid, multi-file, invalid, valid+invalid} x {build, run, emit} x sampled combinations of --silent --verbose --color --arrows --out-dir --backend --config --wasm PENNE_BACKEND/PENNE_LLI with stub back ends that record their invocation and exit with 0 / 3 / SIGSEGV / do not exist; exit status, invoked backend, diagnostics (no ANSI under --color=never, ASCII under --arrows=ascii), .pn.ll files under --out-dir (checked by llvm-as) vs Model/Cli.v; plus a real lli run and an absolute input path; distinct = (subcommand, input, backend, success, backend result)",
+        rule="the real penne binary (built from /repo with alpha,llvm-sys) on {valid, multi-file, invalid, valid+invalid} x {build, run, emit} x sampled combinations of --silent --verbose --color --arrows --out-dir --backend --config --wasm PENNE_BACKEND/PENNE_LLI with stub back ends that record their invocation and exit with 0 / 3 / SIGSEGV / do not exist; exit status, invoked backend, diagnostics (no ANSI under --color=never, ASCII under --arrows=ascii), .pn.ll files under --out-dir (checked by llvm-as) vs Model/Cli.v; the IR handed to the interpreter by `run` (valid, defines main and every function of every module); plus real lli runs of a one-module and a two-module program in both file orders, and an absolute input path; distinct = (subcommand, input, backend, success, backend result)",
         stats=dict(stats), problems=bad,
         samples=[dict(config=str(configs[0]))])
     return ck.finish()
